@@ -143,6 +143,9 @@ func c01E2E(d *vCtx) error {
 		}
 		var details []map[string]any
 		for id := i; id < total; id += n {
+			if id <= vResumeAfter() {
+				continue
+			}
 			c := c01Case(id, d.seed, big)
 			work := e2eWorkDir(base, id)
 			_, detail, err := e2eExec(c, work, tr, lines)
@@ -153,6 +156,10 @@ func c01E2E(d *vCtx) error {
 			details = append(details, detail)
 			os.RemoveAll(work)
 			d.add("runs", 1)
+			if e2eTainted {
+				vRequestRestart(d, id)
+				break
+			}
 		}
 		if err := tr.Close(); err != nil {
 			return err
@@ -348,12 +355,20 @@ func c01Process(d *vCtx) error {
 			cmd.Env = append(os.Environ(), "TMUX=", "TERM=xterm")
 			cmd.Env = e2eDropEnv(cmd.Env, "TMUX")
 			stdin, _ := cmd.StdinPipe()
-			stdout, _ := cmd.StdoutPipe()
+			// our own pipe: cmd.Wait closes a StdoutPipe as soon as the process exits and whatever the
+			// filter's pump had not read yet (the final "Received ..." lines) would be lost
+			pr, pw, perr := os.Pipe()
+			if perr != nil {
+				return perr
+			}
+			cmd.Stdout = pw
+			stdout := &e2eEOFReader{r: pr, eof: make(chan struct{})}
 			var stderr bytes.Buffer
 			cmd.Stderr = &stderr
 			if err := cmd.Start(); err != nil {
 				return err
 			}
+			_ = pw.Close()
 			clientIn := &e2eChanReader{ch: make(chan []byte)}
 			sink := &e2eSink{}
 			f := NewTrzszFilter(clientIn, sink, stdin, stdout, TrzszOptions{TerminalColumns: 100})
@@ -377,6 +392,15 @@ func c01Process(d *vCtx) error {
 				hung = true
 				_ = cmd.Process.Kill()
 			}
+			// everything the server process wrote has passed the filter, and the client side is done
+			select {
+			case <-stdout.eof:
+			case <-time.After(10 * time.Second):
+			}
+			for dl := time.Now().Add(10 * time.Second); f.IsTransferringFiles() && time.Now().Before(dl); {
+				time.Sleep(2 * time.Millisecond)
+			}
+			_ = pr.Close()
 			cok := false
 			if upload {
 				select {
